@@ -19,6 +19,8 @@ class Harness:
         self.calls = {s: [] for s in SUBS}
         self.raising = set()
         self.active = set()
+        self.oneshot = set()
+        self.left_during_frame = set()
         at = self.w.at
         acs = {a.ac_id: a for a in at.air_conditioners}
         self.ac0, self.ac1 = acs[0], acs[1]
@@ -42,6 +44,12 @@ class Harness:
     def _make(self, name, i, order):
         async def sub(ident):
             self.calls[name].append(ident)
+            if name in self.oneshot:
+                # a one-shot subscriber: removes itself (and registers a late-comer) from inside its callback
+                self.oneshot.discard(name)
+                self.targets[name][1](self.fns[name])
+                self.active.discard(name)
+                self.left_during_frame.add(name)
             if name in self.raising:
                 raise RuntimeError(f"subscriber {name} fails")
         # canonical as_completed order sorts by qualname: 'order' decides whether raising subscribers
@@ -56,7 +64,7 @@ class Harness:
 
 
 EVENTS = ["ac0-change", "ac0-repeat", "zone0-change", "zone0-repeat", "zone2-change", "all-zones-change", "timer-change", "timer-repeat",
-          "errtext-change", "version-change", "version-repeat", "sub-twice", "unsub-twins", "raise-on"]
+          "errtext-change", "version-change", "version-repeat", "sub-twice", "unsub-twins", "raise-on", "oneshot-on"]
 
 
 def apply_event(h, ev, k):
@@ -111,6 +119,10 @@ def apply_event(h, ev, k):
     if ev == "raise-on":
         h.raising |= {"A1", "G1", "S1", "Z1"}
         return []
+    if ev == "oneshot-on":
+        # (un)subscribing from inside a callback is a placement of subscribe/unsubscribe like any other
+        h.oneshot |= {s for s in ("A2", "G2", "Z2") if s in h.active}
+        return []
     raise ValueError(ev)
 
 
@@ -158,6 +170,7 @@ def run_history(job):
         if not frames:
             continue
         h.reset_counts()
+        h.left_during_frame = set()
         for fr in frames:
             c10.push(w, fr)
         after = pubmodel.expected_view(gen, w.inst, w.console.state)
@@ -169,7 +182,7 @@ def run_history(job):
         trace.append(tuple(len(h.calls[s]) for s in SUBS))
         for s in SUBS:
             got = h.calls[s]
-            if s not in h.active:
+            if s not in h.active and s not in h.left_during_frame:
                 if got:
                     return (f"at{gen}:unsubscribed-called:{ev}", f"{label}: unsubscribed {s} was called {len(got)}x")
                 continue
@@ -180,6 +193,8 @@ def run_history(job):
             if any(g != ids[s] for g in got):
                 return (f"at{gen}:wrong-identifier:{ev}:{s}", f"{label}: {s} called with {got}, expected id {ids[s]}")
         for a, b in (("A1", "A2"), ("G1", "G2"), ("Z1", "Z2")):
+            if b in h.left_during_frame:
+                continue
             if a in h.active and b in h.active and len(h.calls[a]) != len(h.calls[b]):
                 return (f"at{gen}:twin-mismatch:{ev}", f"{label}: {a} called {len(h.calls[a])}x but {b} {len(h.calls[b])}x "
                         "(double subscription / a raising sibling must have no effect)")
